@@ -58,6 +58,113 @@ pub fn tree_event(t: &T, path: &str, kind: &str) -> J {
     ev
 }
 
+/// a chain of `depth` one-child wrappers of every composite kind around a primitive (deeper than any recursion guard one
+/// might be tempted to add: the statements quantify over every schema)
+pub fn deep_tree(r: &mut StdRng, depth: usize) -> T {
+    let mut t = T::Prim(["U8", "String", "Bool", "F64", "Unit"][r.gen_range(0..5)]);
+    // the JSON reader of the trace validator nests at most 255 levels: mostly wrappers that cost one or two levels,
+    // the two expensive ones (named field, enum variant) at a few random positions
+    let costly: Vec<usize> = (0..4).map(|_| r.gen_range(0..depth)).collect();
+    for i in 0..depth {
+        let pick = if costly.contains(&i) { r.gen_range(5..7) } else { r.gen_range(0..5) };
+        t = match pick {
+            0 => T::Option(Box::new(t)),
+            1 => T::Seq(Box::new(t)),
+            2 => T::Tuple(vec![t]),
+            3 => T::Map(Box::new(T::Prim("String")), Box::new(t)),
+            4 => T::Struct(format!("S{i}"), D::Newtype(Box::new(t))),
+            5 => T::Struct(format!("N{i}"), D::Struct(vec![(format!("f{i}"), t)])),
+            _ => T::Enum(format!("E{i}"), vec![("A".into(), D::Unit), (format!("V{i}"), D::Tuple(vec![t]))]),
+        };
+    }
+    t
+}
+/// long homogeneous tuples (arrays) compressed for the log: {"k":"Tuple","rep":n,"t":element}
+fn compress(j: &J) -> J {
+    match j {
+        J::Array(a) => J::Array(a.iter().map(compress).collect()),
+        J::Object(o) => {
+            if o.get("k") == Some(&json!("Tuple")) {
+                if let Some(J::Array(ts)) = o.get("ts") {
+                    if ts.len() > 1000 && ts.iter().all(|x| *x == ts[0]) {
+                        return json!({"k":"Tuple","rep":ts.len(),"t":compress(&ts[0])});
+                    }
+                }
+            }
+            J::Object(o.iter().map(|(k, v)| (k.clone(), compress(v))).collect())
+        }
+        x => x.clone(),
+    }
+}
+/// `struct Big { arr: [elem; n] }` with n in the tens of thousands: too large to log element by element, so the event
+/// carries the serialisation split into (bytes before the elements, one element, repetition count, bytes after) and
+/// the trees in compressed form; everything else is observed as for `schema_tree`.
+pub fn big_event(elem: &T, n: usize, path: &str) -> J {
+    use postcard_schema::schema::{Data, DataModelType as M, NamedField};
+    let est = lt(elem);
+    let arr: &'static M = Box::leak(Box::new(M::Tuple(Box::leak(vec![est; n].into_boxed_slice()))));
+    let fields: &'static [&'static NamedField] = Box::leak(vec![&*Box::leak(Box::new(NamedField { name: "arr", ty: arr }))].into_boxed_slice());
+    let st: &'static M = Box::leak(Box::new(M::Struct { name: "Big", data: Data::Struct(fields) }));
+    let mut ev = json!({"op":"schema_big","n":n,"elem":tj(elem),"path":b(path),
+        "tree":{"k":"Struct","name":b("Big"),"data":{"k":"Struct","fs":[{"name":b("arr"),"ty":{"k":"Tuple","rep":n,"t":tj(elem)}}]}}});
+    let res = catch(|| {
+        let bb = postcard::to_allocvec(st).map_err(|e| format!("{e:?}"));
+        let owned: OwnedDataModelType = st.into();
+        let bo = postcard::to_allocvec(&owned).map_err(|e| format!("{e:?}"));
+        let dec: Result<(OwnedDataModelType, usize), String> = match &bb {
+            Ok(b) => postcard::take_from_bytes::<OwnedDataModelType>(b).map(|(d, rest)| (d, rest.len())).map_err(|e| format!("{e:?}")),
+            Err(e) => Err(e.clone()),
+        };
+        let key_owned = Key::for_owned_schema_path(path, &owned).to_bytes();
+        let key_const = postcard_schema::key::hash::fnv1a64::verif_hash_static(path, st);
+        (bb, bo, owned, dec, key_owned, key_const)
+    });
+    match res {
+        Err(p) => {
+            ev["panic"] = json!(p);
+        }
+        Ok((bb, bo, owned, dec, ko, kc)) => {
+            let e_enc = postcard::to_allocvec(est).unwrap_or_default();
+            let split = |x: &Result<Vec<u8>, String>| -> J {
+                match x {
+                    Err(e) => json!({"err":e}),
+                    Ok(v) => {
+                        let q = e_enc.len().max(1);
+                        let total = q * n;
+                        // the elements are the last thing in this tree: the run of n copies ends the serialisation
+                        let p = v.len().saturating_sub(total);
+                        let periodic = v.len() >= total && (0..n).all(|i| v[p + i * q..p + (i + 1) * q] == e_enc[..]);
+                        json!({"pre": v[..p], "period": e_enc, "reps": if periodic { n } else { 0 }, "len": v.len()})
+                    }
+                }
+            };
+            ev["bytes_borrowed"] = split(&bb);
+            ev["bytes_owned"] = split(&bo);
+            ev["owned_tree"] = compress(&ot(&owned));
+            ev["decoded_tree"] = dec.as_ref().map(|d| compress(&ot(&d.0))).unwrap_or_else(|e| json!({"err":e}));
+            ev["decoded_eq_conv"] = json!(dec.as_ref().map(|d| (d.0 == owned) as u8).unwrap_or(0));
+            ev["decoded_rest"] = json!(dec.as_ref().map(|d| d.1 as i64).unwrap_or(-1));
+            ev["key_owned"] = json!(ko);
+            ev["key_const"] = json!(kc);
+            let o2 = owned.clone();
+            match catch(move || o2.all_used_types().iter().map(|t| compress(&ot(t))).collect::<Vec<_>>()) {
+                Ok(u) => ev["used"] = json!(u),
+                Err(p) => ev["used_panic"] = json!(p),
+            }
+            let o3 = owned.clone();
+            match catch(move || (o3.to_pseudocode(), o3.to_string())) {
+                Ok((pc, ds)) => {
+                    // the rendering of a long array is short ("[T; N]"), log it whole
+                    ev["rendered"] = b(&pc);
+                    ev["display"] = b(&ds);
+                }
+                Err(p) => ev["render_panic"] = json!(p),
+            }
+        }
+    }
+    ev
+}
+
 pub fn run(a: &Args) {
     let n = a.num("n", 100);
     let seed = a.num("seed", 1);
@@ -84,6 +191,19 @@ pub fn run(a: &Args) {
             writeln!(out, "{}", tree_event(&t, &(path.clone() + "2"), "path-mutant")).unwrap();
             cnt += 1;
         }
+    }
+    // deep chains (beyond any plausible recursion guard) and long arrays (beyond any plausible pre-allocation cap or digit buffer)
+    for d in [65usize, 66, 70 + (seed % 20) as usize] {
+        vcommon::obs::mark_case(&marker, &format!("trees-deep:{seed}:{d}"));
+        let t = deep_tree(&mut r, d);
+        writeln!(out, "{}", tree_event(&t, "deep/path", "deep")).unwrap();
+        cnt += 1;
+    }
+    let elems = [T::Prim("U8"), T::Option(Box::new(T::Prim("Bool"))), T::Struct("P".into(), D::Tuple(vec![T::Prim("U16"), T::Prim("String")]))];
+    for (i, nn) in [1001usize, 30000 + (seed % 7) as usize, 100000 + (seed % 1000) as usize, 131072].iter().enumerate() {
+        vcommon::obs::mark_case(&marker, &format!("trees-big:{seed}:{nn}"));
+        writeln!(out, "{}", big_event(&elems[(i + seed as usize) % 3], *nn, "big/path")).unwrap();
+        cnt += 1;
     }
     out.flush().unwrap();
     eprintln!("trees: {cnt} events");
